@@ -20,6 +20,7 @@ import PyTealV.Cmd.C19
 import PyTealV.Cmd.C11
 import PyTealV.Cmd.C09
 import PyTealV.Cmd.C05
+import PyTealV.Cmd.C07
 namespace PyTealV.Cmd
 
 def extraCommands : List (String × (List String → String)) := [
@@ -64,7 +65,8 @@ def extraCommands : List (String × (List String → String)) := [
   ("c11-run", C11.runCmd),
   ("c09-const", C09.const), ("c09-glue", C09.glueCmd), ("c09-binding", C09.bindingCmd),
   ("c09-run", C09.runCmd), ("c09-wrap", C09.wrapCmd), ("c09-contract", C09.contractCmd),
-  ("c05-check", C05.check)
+  ("c05-check", C05.check),
+  ("c07-descr", C07.descr), ("c07-plan", C07.planCmd), ("c07-path", C07.pathCmd)
 ]
 
 def dispatch (cmd : String) (args : List String) : Option String :=
